@@ -143,7 +143,7 @@ def run():
     chk = Check("C04", "model_checking")
     t = tier()
     sizes = {"small": (500, 6000), "random": (500, 8000), "skewed": (150, 1500), "mset": (150, 2000), "msetdup": (120, 1500), "huge": (12, 60), "csv": (100, 1500), "pyobj": (100, 1500), "plist": (80, 1000),
-             "xml": (150, 2000), "dupkeys": (100, 1000), "rekeyed": (40, 400), "loaded": (60, 800)}
+             "xml": (150, 2000), "dupkeys": (100, 1000), "rekeyed": (40, 400), "loaded": (60, 800), "pickled": (80, 800)}
     jobs = []
     for kind, (q, th) in sizes.items():
         cases = corpus.gen_cases(kind, q if t == "quick" else th, 4)
